@@ -332,8 +332,9 @@ class ModGen:
             inst = {"name": "i%d" % k, "of": of, "kind": kind, "conns": []}
             if kind == "array":
                 inst["n"] = d.int(1, 4)
-                if d.bool(30):
-                    inst["via"] = "mult"
+                via = d.weighted([("ctor", 50), ("mult", 25), ("mult_late", 25)])
+                if via != "ctor":
+                    inst["via"] = via
                 self.feats.add("array")
             if kind == "pair":
                 self.feats.add("pair")
@@ -377,6 +378,27 @@ class ModGen:
                     info["plan"] = "explicit"
                     e = self.conn_for(inst, p, key, info, allow_ref=False)
                     inst["conns"].append([p[1], e])
+        # classify the direct port-reference structure: chains, fans and cycles
+        direct = {}
+        for inst in self.insts:
+            for pn, e in inst["conns"]:
+                if e[0] == "pref":
+                    direct[(inst["name"], pn)] = (e[1], e[2])
+        indeg = {}
+        for tgt in direct.values():
+            indeg[tgt] = indeg.get(tgt, 0) + 1
+        if any(v >= 2 for v in indeg.values()):
+            self.feats.add("portref_fan")
+        if any(t in direct for t in direct.values()):
+            self.feats.add("portref_chain")
+        for start in direct:
+            seen, cur = set(), start
+            while cur in direct and cur not in seen:
+                seen.add(cur)
+                cur = direct[cur]
+            if cur in seen:
+                self.feats.add("portref_cycle")
+                break
         m = {"name": "M%d" % self.midx, "sigs": self.sigs, "bundles": self.buns, "insts": self.insts}
         if o.history:
             m["history"] = self.make_history()
